@@ -668,6 +668,10 @@ def construct(I, cls, args, kwargs):
         return VDType(kind.t, truthy(nullable) if not isinstance(nullable, VBool) else nullable.t)
     if c in (range, zip, enumerate, reversed):
         return BUILTINS[c.__name__](I, None, args, kwargs)
+    if c is super:
+        o = VObj(object, tag='super')
+        o.fields = {'cls': args[0] if args else None, 'obj': args[1] if len(args) > 1 else None}
+        return o
     if c is type and len(args) == 1:
         return b_type(I, None, args, kwargs)
     if c is slice:
@@ -693,6 +697,12 @@ def call_builtin(I, f, args, kwargs):
         return h(I, f, args, kwargs)
     if name.startswith('method:'):
         return call_method(I, f.self_, name[7:], args, kwargs)
+    if name == 'object.__new__':
+        cls = args[0]
+        o = VObj(cls.pycls, tag='vector' if issubclass(cls.pycls, __import__('serif.vector', fromlist=['Vector']).Vector) else None)
+        return o
+    if name == 'object.__init__':
+        return NONE
     if name == 'slice.indices':
         n = args[0]
         s, e, st = slice_indices(I, f.self_, n.t)
